@@ -1,6 +1,7 @@
 package checks
 
 import (
+	"errors"
 	"fmt"
 	"net"
 	"net/netip"
@@ -15,6 +16,7 @@ import (
 	sbytes "github.com/talostrading/sonic/bytes"
 	"github.com/talostrading/sonic/codec/websocket"
 	"github.com/talostrading/sonic/multicast"
+	"github.com/talostrading/sonic/sonicerrors"
 	"github.com/talostrading/sonic/sonicopts"
 	"golang.org/x/sys/unix"
 
@@ -1372,7 +1374,7 @@ func c13GC(c *vf.Case, ioc *sonic.IO) {
 	// sonic's connect, which selects on an FdSet)
 	const hi = "+high-descriptor"
 	kinds := []string{"conn-read", "packet-conn-read", "udp-peer-read", "listener-accept", "timer", "conn-write", "conn-read-after-its-write-completed", "adapter-read-after-its-write-completed",
-		"adapter-read-after-its-write-completed" + hi, "packet-conn-read" + hi, "timer" + hi}
+		"adapter-read-after-its-write-completed" + hi, "packet-conn-read" + hi, "timer" + hi, "listener-accept-after-a-spurious-wake-up"}
 	var filler []int
 	dropFiller := func() {
 		for _, fd := range filler {
@@ -1415,6 +1417,7 @@ func c13GC(c *vf.Case, ioc *sonic.IO) {
 		var gotErr error
 		var peerFd int = -1
 		var trigger func()
+		skipKind := false
 		vfd, vev := -1, int16(unix.POLLIN)
 		// everything the application holds lives inside this function call
 		func() {
@@ -1546,6 +1549,66 @@ func c13GC(c *vf.Case, ioc *sonic.IO) {
 					fd, _, _ := rawpeer.Connect4(port)
 					peerFd = fd
 				}
+			case "listener-accept-after-a-spurious-wake-up":
+				// the parked accept is woken although nothing is queued any more: a handler that runs earlier in the same
+				// poll batch (a posted one: the eventfd became ready first) takes the connection with accept(2) on the
+				// descriptor. The accept loop then waits again - through its callback (ErrWouldBlock) or silently inside
+				// the library; either way an accept is in flight afterwards and keeps the listener alive
+				l, err := sonic.Listen(ioc, "tcp", "127.0.0.1:0", sonicopts.Nonblocking(true))
+				if err != nil {
+					c.Failf("harness-setup", "%v", err)
+					return
+				}
+				sa, _ := syscall.Getsockname(l.RawFd())
+				port := sa.(*syscall.SockaddrInet4).Port
+				vfd = l.RawFd()
+				lfd := l.RawFd()
+				var accept func()
+				accept = func() {
+					l.AsyncAccept(func(err error, cn sonic.Conn) {
+						if errors.Is(err, sonicerrors.ErrWouldBlock) {
+							accept()
+							return
+						}
+						completed++
+						gotErr = err
+						gotN = 10
+						if cn != nil {
+							cn.Close()
+						}
+						_ = sentinel.pad[0]
+						_ = l.Close()
+					})
+				}
+				accept()
+				stolen := -1
+				_ = ioc.Post(func() {
+					rawpeer.WaitReadable(lfd, 1000)
+					stolen, _, _ = rawpeer.Accept(lfd)
+				})
+				first, _, _ := rawpeer.Connect4(port)
+				for i := 0; i < 50 && stolen < 0 && completed == 0; i++ {
+					_, _ = ioc.PollOne()
+				}
+				for i := 0; i < 5; i++ {
+					_, _ = ioc.PollOne()
+				}
+				if stolen >= 0 {
+					syscall.Close(stolen)
+				}
+				if first >= 0 {
+					syscall.Close(first)
+				}
+				if completed != 0 || stolen < 0 {
+					// the listener's handler ran before the posted one: no spurious wake-up was constructed
+					skipKind = true
+					return
+				}
+				c.Count("spurious_wakeups_of_a_parked_accept", 1)
+				trigger = func() {
+					fd, _, _ := rawpeer.Connect4(port)
+					peerFd = fd
+				}
 			case "timer":
 				t, err := sonic.NewTimer(ioc)
 				if err != nil {
@@ -1565,6 +1628,11 @@ func c13GC(c *vf.Case, ioc *sonic.IO) {
 				trigger = func() { time.Sleep(4 * time.Millisecond) }
 			}
 		}()
+		if skipKind {
+			c.Count("gc_probes_skipped_situation_not_constructed", 1)
+			dropFiller()
+			continue
+		}
 		if c.Failed() {
 			return
 		}
@@ -1724,7 +1792,7 @@ func init() {
 		ID:        "C13",
 		Level:     "fault_enumeration",
 		Technique: "fault enumeration under runtime monitors: /proc/self/fd census before/after every failing constructor (refused, bind conflict, failing option, bad path, bad/truncated handshake responses, descriptor-table exhaustion at the k-th allocation for every k via a packed table + RLIMIT_NOFILE), double-Close matrix with descriptor reuse checked by census, GC probes with a finalizer sentinel captured by the pending callback",
-		Rule: "GC probes are repeated for an adapter (read after its write completed), a packet conn and a timer whose descriptor number lies above 4096 (the process holds 4100 other descriptors while the object is created); an adapter and the net.Conn it wraps are closed in both orders with another object created in between; a connection re-created (same number) with a parked read inside the completion handler of the one it replaces must survive the collector; " +
+		Rule: "one GC probe has a listener whose parked accept was woken spuriously (a posted handler earlier in the batch took the connection with accept(2)) and waits again; GC probes are repeated for an adapter (read after its write completed), a packet conn and a timer whose descriptor number lies above 4096 (the process holds 4100 other descriptors while the object is created); an adapter and the net.Conn it wraps are closed in both orders with another object created in between; a connection re-created (same number) with a parked read inside the completion handler of the one it replaces must survive the collector; " +
 			"the close-twice matrix includes an AsyncAdapter over a net.Conn; failing constructors include a UDP Dial whose connect(2) fails; timers that close themselves inside their own callback (one-shot and repeating) with a second timer created before the callback returns, then closed again; GC probes also for a timer with a refused second schedule and for a conn / adapter whose read stays in flight after its write completed; " +
 			"cases rotate over five probe families: (0) for each of {NewIO, NewTimer, Listen, NewPacketConn, NewUDPPeer, Open, NewMirroredBuffer}: pack the descriptor table and lower RLIMIT_NOFILE so that only k more descriptors can be allocated, for k = 0,1,2,... until the constructor succeeds; (1) 13 failing constructors/connects (refused, unroutable with timeout, bind to foreign address, bind conflict, failing option, bad address, nonexistent path, invalid size) x 30 repetitions; (2) websocket Handshake and AsyncHandshake against a raw server that closes after 0 / k bytes, answers 200, a wrong accept key, garbage, or is not there x 8 repetitions; (3) the 7x7 matrix 'close A, create B, close A again' over {conn, listener, packet conn, UDP peer, timer, file, IO}; (4) GC probes for {conn read, conn write, packet conn read, UDP peer read, listener accept, timer} with references dropped, 4 collections and heap churn, the same with the operation re-issued from inside its own completion handler, and the teardown orders {object then IO, IO then object, object twice then IO} for {conn, listener, packet conn, UDP peer, timer} with and without a deferred operation, each followed by a census, and each of {conn, listener, packet conn, UDP peer, file, timer} created while descriptor 0 is free (it receives that number) and closed once and twice; the census is always taken without running the GC; " +
 			"every case is non-trivial; distinct = (family, case index)",
